@@ -66,7 +66,11 @@ class IntervalSegmenter(_PanelToPanelTransformer):
                 raise ValueError(
                     "The number of intervals must be half the number of time points"
                 )
-            self.intervals_ = np.array_split(self._time_index, self.intervals)
+            # intervals are stored as (start, end) with exclusive end, as for array input
+            self.intervals_ = [
+                np.array([split[0], split[-1] + 1])
+                for split in np.array_split(self._time_index, self.intervals)
+            ]
 
         else:
             raise ValueError(
